@@ -8,7 +8,8 @@
 (b) property oracle, run directly on the implementation after every step, with an independent book-keeping of what is loaded:
     fingerprints() exact; every identifier of a loaded key (a fingerprint / key id / short id also written in groups) is `in`
     the keyring and selects a loaded key carrying it; identifiers of unloaded keys only -- among them names that differ from a
-    loaded name by blanks only -- select nothing; len exact; load() reports what it was given (also for a bytearray, which it
+    loaded name by blanks only -- select nothing; len exact; load() reports what it was given, and what it reports is held and listed
+    afterwards -- also when a subkey had been unloaded on its own and its primary is loaded again (also for a bytearray, which it
     leaves untouched); selection by signature / encrypted message yields the issuing / decrypting key and raises KeyError (and
     nothing else) when no issuer is loaded (sample).
 (c) PGPKeyring._unspaced against the model's `unspaced` and against an independent reading of the rule, on generated identifiers.
@@ -21,7 +22,7 @@ from .common import Driver, DriverError, Batch, load_repo, outcome
 PINNED = {
     'PGPKeyring._add_alias': '04f6210db6487cd7',
     'PGPKeyring._sort_alias': '2eef8b3c2d963545',
-    'PGPKeyring._add_key': '506c3a2a400a691c',
+    'PGPKeyring._add_key': '8c4755a07d19e167',
     'PGPKeyring.unload': 'c74b6d935511a928',
     'PGPKeyring.__contains__': '136410717440fb6d',
     'PGPKeyring._get_key': 'eb28d9533a70aa50',
@@ -209,9 +210,9 @@ class Sim:
 
     # -- book-keeping (the Spec's loaded_after, on objects)
     def note_load(self, o):
-        if id(o) not in self.loaded:
-            for c in components(o):
-                self.loaded.setdefault(id(c), c)
+        """the key object and its subkeys, as far as they are not there yet (also the subkeys of a key that is already loaded)"""
+        for c in components(o):
+            self.loaded.setdefault(id(c), c)
 
     def note_unload(self, o):
         if id(o) in self.loaded:
@@ -279,10 +280,15 @@ class Sim:
             if {str(f) for f in ret} != want or len(ret) != len(set(ret)):
                 self.ctx.fail('history', 'load() does not report the fingerprints it was given', dict(case, ret=sorted(map(str, ret))))
                 return False
+            if not self.reported_is_held(ret, objs, case):
+                return False
             for (lb, form), o in zip(items, objs):
                 if id(o) not in self.loaded and o not in self.live[lb]:
                     self.live[lb].append(o)
                 self.note_load(o)
+                if r < 0:        # the model's load_result for this key is what load() reported for it
+                    got = ','.join(sorted({hexs(aliases_of(c)[0]) for c in components(o)} & {hexs(f) for f in ret}))
+                    self.ctx.expect_eq('history', 'load() result for one key differs from the model', case, got, self.d.call('loadres', self.keyspec(o)))
                 self.last_model = self.d.call('L', self.keyspec(o), r)
         elif kind == 'U':
             _, lb, n, how = op
@@ -313,19 +319,59 @@ class Sim:
             if res[0] == 'raise':
                 self.ctx.fail('history', 'load() of a subkey object raised %s' % res[1], case)
                 return False
+            if not self.reported_is_held(res[1], [o], case):
+                return False
+            self.note_load(o)
+            self.last_model = self.d.call('L', self.keyspec(o), r)
+        elif kind == 'RL':               # the n-th loaded object of this label, loaded AGAIN (the very same PGPKey object)
+            _, lb, n = op
+            lst = self.live[lb] or [self.U[lb]]
+            o = lst[n % len(lst)]
+            res = outcome(self.kr.load, o)
+            if res[0] == 'raise':
+                self.ctx.fail('history', 'load() of a loaded key object raised %s' % res[1], case)
+                return False
+            if {str(f) for f in res[1]} != {aliases_of(c)[0] for c in components(o)}:
+                self.ctx.fail('history', 'load() does not report the fingerprints it was given', dict(case, ret=sorted(map(str, res[1]))))
+                return False
+            if not self.reported_is_held(res[1], [o], case):
+                return False
+            if o not in self.live[lb]:
+                self.live[lb].append(o)
             self.note_load(o)
             self.last_model = self.d.call('L', self.keyspec(o), r)
         elif kind == 'US':
-            _, lb, n, j = op
+            _, lb, n, j = op[:4]
+            how = op[4] if len(op) > 4 else 'obj'
             lst = self.live[lb] or [self.U[lb]]
             subs = list(lst[n % len(lst)].subkeys.values())
             o = subs[j % len(subs)]
+            if how != 'obj' and id(o) in self.loaded:        # the subkey selected through the keyring: fingerprint (also in groups) / key id
+                a = aliases_of(o)[{'fp': 0, 'fpsp': 0, 'keyid': 1}[how]]
+                if how == 'fpsp': a = spaced(a)[0]
+                res = outcome(self.getk, a)
+                if res[0] == 'raise' or id(res[1]) not in self.mid:
+                    self.ctx.fail('history', 'key(%s of a loaded subkey) raised %s' % (how, res[1]), dict(case, alias=a))
+                    return False
+                o = res[1]
             if not self.do_unload(o, case):
                 return False
             self.note_unload(o)
             self.last_model = self.d.call('U', self.keyspec(o), r)
         else:
             raise ValueError(op)
+        return True
+
+    def reported_is_held(self, ret, objs, case):
+        """what load() reports must be there afterwards: listed by fingerprints(), and the very objects held by the keyring"""
+        fps = outcome(lambda: {str(f) for f in self.kr.fingerprints()})
+        if fps[0] != 'ok' or not {str(f) for f in ret} <= fps[1]:
+            self.ctx.fail('history', 'load() reports a fingerprint that fingerprints() does not list afterwards',
+                          dict(case, ret=sorted(map(str, ret)), listed=sorted(fps[1]) if fps[0] == 'ok' else fps[1]))
+            return False
+        if not all(id(c) in self.kr._keys for o in objs for c in components(o)):
+            self.ctx.fail('history', 'load() reports a key object (a subkey of a loaded key) that the keyring does not hold afterwards', case)
+            return False
         return True
 
     def getk(self, a):
@@ -428,7 +474,9 @@ def run_history(sim, suite, ops, check_every=True):
 
 
 def exhaustive(ctx, sim, labels, depth, suite):
-    """every history in which each step toggles one key of `labels` (load if absent, unload if present), to `depth`"""
+    """every history in which each step toggles one key of `labels` (load if absent, unload if present), to `depth`.
+    A label 'K/j' stands for subkey j of the first live object of K: unloaded on its own when it is there, and when it is not, K is
+    loaded AGAIN (the same object, a re-parsed copy, ...) -- which must bring the subkey back; skipped while K is not loaded"""
     rng = ctx.rng
     count = [0]
 
@@ -437,7 +485,18 @@ def exhaustive(ctx, sim, labels, depth, suite):
             return
         snap = sim.snapshot(d)
         for lb in labels:
-            if sim.live[lb]:
+            if '/' in lb:
+                top, j = lb.split('/')
+                if not sim.live[top]:
+                    continue
+                sub = list(sim.live[top][0].subkeys.values())[int(j)]
+                if id(sub) in sim.loaded:
+                    op = ['US', top, 0, int(j), rng.choice(('obj', 'obj', 'fp', 'fpsp', 'keyid'))]
+                elif rng.random() < 0.5:
+                    op = ['RL', top, 0]
+                else:
+                    op = ['L', [[top, rng.choice(FORMS)]], rng.choice(MODES)]
+            elif sim.live[lb]:
                 op = ['U', lb, 0, rng.choice(('obj', 'obj', 'fp', 'keyid', 'keyidsp'))]
             else:
                 op = ['L', [[lb, rng.choice(FORMS)]], rng.choice(MODES)]
@@ -458,24 +517,38 @@ def random_walk(ctx, sim, steps, suite, components_too):
     rng, U = ctx.rng, sim.U
     labels = list(U)
     ops = []
+    twin = {'A': 'Ap', 'Ap': 'A', 'B': 'Bp', 'Bp': 'B'}
+    pending = None
+    cut = (0.40, 0.73, 0.78) if components_too else (0.45, 0.85, 0.9)
     sim.reset()
     for n in range(steps):
         r = rng.random()
         loaded_labels = [lb for lb in labels if sim.live[lb]]
-        if r < 0.45 or not loaded_labels:
+        if pending is not None and r < 0.6:
+            # a subkey was just unloaded on its own: load its primary again -- the same object, a re-parsed copy, the other half
+            lb, k = pending
+            how = rng.choice(('same', 'same', 'copy', 'twin' if lb in twin else 'copy'))
+            op = (['RL', lb, k] if how == 'same' else
+                  ['L', [[lb if how == 'copy' else twin[lb], rng.choice(FORMS[1:] if how == 'copy' else FORMS)]], rng.choice(MODES)])
+            pending = None
+        elif r < cut[0] or not loaded_labels:
             k = 1 if rng.random() < 0.7 else rng.choice((2, 3))
             lbs = rng.sample(labels, k)
             mode = rng.choice(MODES) if k == 1 else rng.choice(MODES[1:])
             op = ['L', [[lb, rng.choice(FORMS)] for lb in lbs], mode]
-        elif r < 0.85:
+        elif r < cut[1]:
             lb = rng.choice(loaded_labels)
             op = ['U', lb, rng.randrange(4), rng.choice(('obj', 'obj', 'fp', 'keyid', 'shortid', 'name', 'keyidsp', 'shortidsp'))]
-        elif r < 0.9:
+        elif r < cut[2]:
             op = ['U', rng.choice(labels), 0, 'obj']
             if sim.live[op[1]]: op[3] = 'obj'
         elif components_too:
             lb = rng.choice([l for l in labels if len(U[l].subkeys)])
-            op = ['LS', lb, rng.randrange(2)] if rng.random() < 0.5 else ['US', lb, rng.randrange(3), rng.randrange(2)]
+            if rng.random() < 0.35:
+                op = ['LS', lb, rng.randrange(2)]
+            else:
+                op = ['US', lb, rng.randrange(3), rng.randrange(2), rng.choice(('obj', 'obj', 'fp', 'fpsp', 'keyid'))]
+                pending = (lb, op[2])
         else:
             continue
         ops.append(op)
@@ -617,6 +690,34 @@ def check_unspaced(ctx, pgpy, sim):
 
 # commit 48f9d25: "John Smith" (G) and "JohnSmith" (H) -- with blanks ignored in every identifier each name selected the other's key
 REGRESS_NAMES = [['L', [['H', 'object']], 'single'], ['L', [['G', 'object']], 'single'], ['U', 'G', 0, 'obj'], ['U', 'H', 0, 'obj']]
+# commit 7e98898: a subkey unloaded on its own comes back when its primary is loaded again
+REGRESS_RELOAD = [['L', [['A', 'object']], 'single'], ['US', 'A', 0, 0, 'obj'], ['RL', 'A', 0]]
+
+
+def reload_histories(ctx, sim):
+    """load K; unload sub(K) on its own (by object / through key(fingerprint), key(fingerprint in groups), key(key id)); load K again
+    (the same object, a re-parsed copy in each serialised form, the other half) -- and once more"""
+    U = sim.U
+    twin = {'A': 'Ap', 'Ap': 'A'}
+    hows = ('obj', 'fp') if ctx.quick else ('obj', 'fp', 'fpsp', 'keyid')
+    firsts = ('object',) if ctx.quick else ('object', 'binary', 'armorbytearray')
+    for lb in [l for l in U if len(U[l].subkeys)]:
+        for j in range(len(U[lb].subkeys)):
+            for how in hows:
+                for first in firsts:
+                    again = [['RL', lb, 0]] + [['L', [[lb, f]], ctx.rng.choice(MODES)] for f in FORMS[1:]]
+                    if first != 'object':
+                        again.append(['L', [[lb, 'object']], 'single'])
+                    if lb in twin:
+                        again.append(['L', [[twin[lb], 'object']], 'single'])
+                    for re in again:
+                        ops = [['L', [[lb, first]], 'single'], ['US', lb, 0, j, how], re, ['US', lb, 0, j, 'obj'], ['RL', lb, 0]]
+                        ctx.case('reload', tuple(map(str, ops)), sample={'ops': ops})
+                        if not run_history(sim, 'reload', ops):
+                            return False
+    return True
+
+
 REGRESS_F5 = [['L', [['A', 'object']], 'single'], ['L', [['B', 'object']], 'single'], ['U', 'A', 0, 'obj'], ['L', [['A', 'object']], 'single']]
 
 
@@ -677,6 +778,19 @@ def _run(ctx, pgpy, d, tmp):
                          'implementation after %d of the %d steps of L H, L G, U G, U H' % (differs, len(REGRESS_NAMES)))
         if not differs:
             ctx.fail('regress-names', 'implementation behaves like the pre-repair model (blanks ignored in names)', {'ops': REGRESS_NAMES})
+    # regression: reload of a primary whose subkey was unloaded on its own, on the implementation, the model, the model of the old _add_key
+    ok = run_history(sim, 'regress-reload', REGRESS_RELOAD)
+    ctx.case('regress-reload', 'LA US(A,0) RL(A)')
+    if ok:
+        impl = sim.observe()
+        sub = list(U['A'].subkeys.values())[0]
+        sim.d.call('reset')
+        for cmd, o in (('LoldK', U['A']), ('U', sub), ('LoldK', U['A'])):
+            old = sim.d.call(cmd, sim.keyspec(o))
+        ctx.notes.append('model of the pre-7e98898 _add_key on L A, U sub(A), L A differs from the implementation: %s' % (old != impl))
+        if old == impl:
+            ctx.fail('regress-reload', 'implementation behaves like the pre-repair model (subkey not indexed again)', {'ops': REGRESS_RELOAD})
+    reload_histories(ctx, sim)
     select_none(ctx, sim)
     check_unspaced(ctx, pgpy, sim)
     # exhaustive toggling histories
@@ -686,9 +800,13 @@ def _run(ctx, pgpy, d, tmp):
         ctx.exhaustive.append('all %d toggle histories over keys %s to depth 5 (load form / unload selector drawn per step)' % (n, labels[:5]))
         n = exhaustive(ctx, sim, labels, 3, 'exhaustive-wide')
         ctx.exhaustive.append('all %d toggle histories over all %d keys to depth 3' % (n, len(labels)))
+        lbs = ['A', 'Ap', 'D', 'A/0', 'D/0']
+        n = exhaustive(ctx, sim, lbs, 4, 'exhaustive-sub')
+        ctx.exhaustive.append('all %d toggle histories over %s to depth 4 (K/j: subkey j of K unloaded on its own, else K loaded again)' % (n, lbs))
     else:
         for lbs, dep, suite in ((labels[:5], 6, 'exhaustive'), (['A', 'B', 'C', 'Ap'], 7, 'exhaustive-deep'),
-                                (labels[:6], 5, 'exhaustive-6'), (labels, 4, 'exhaustive-wide')):
+                                (labels[:6], 5, 'exhaustive-6'), (labels, 4, 'exhaustive-wide'),
+                                (['A', 'Ap', 'E', 'A/0', 'E/0', 'E/1'], 5, 'exhaustive-sub')):
             n = exhaustive(ctx, sim, lbs, dep, suite)
             ctx.exhaustive.append('all %d toggle histories over keys %s to depth %d' % (n, lbs, dep))
     # random walks: re-loading loaded keys (serialised forms create second objects), lists, unloading through key()
